@@ -1626,12 +1626,31 @@ package bpmn
 //@         (!old(evt.activated) ==> count(Send, flowAction) == old(count(Send, flowAction)) + 1 && count(Send, completeAction) == old(count(Send, completeAction)) &&
 //@            len(lastval(Send, flowAction).(flowAction).unconditionalFlows) == 0 && lastval(Send, flowAction).(flowAction).response == nil) &&
 //@         (old(evt.activated) ==> count(Send, completeAction) == old(count(Send, completeAction)) + 1 && count(Send, flowAction) == old(count(Send, flowAction)))
+// The end event's step: a token that reaches it is consumed — it is never handed a flow; the first one announces the
+// end event to the instance exactly once and every later one is consumed without a second announcement; a request is
+// either answered (with "complete", on the asking token's own reply channel) or, when the announcement failed, reported
+// as an error — never both, never neither.
 //@ func (*endEvent).run
-//@   prop C07
+//@   prop C07 C01 C02
 //@   ensures [sender-released-exactly-once-on-exit @C07] count(Call, code("tracing|ISenderHandle.Done")) == old(count(Call, code("tracing|ISenderHandle.Done"))) + 1
 //@   loop 1 for
 //@     invariant count(Call, code("tracing|ISenderHandle.Done")) == old(count(Call, code("tracing|ISenderHandle.Done")))
 //@     cancels ctx
+//@     invariant evt.mch == old(evt.mch)
+//@     iter ensures [a-token-at-an-end-event-is-never-sent-on @C01] count(Send, flowAction) == old(count(Send, flowAction)) && count(Send, probeAction) == old(count(Send, probeAction))
+//@     iter ensures [a-request-is-answered-with-complete-on-its-own-channel-or-reported-as-an-error @C01]
+//@       isRecv(ev(old(evlen))) && evch(ev(old(evlen))) == evt.mch && is(evval(ev(old(evlen))), nextActionMessage) ==>
+//@         evt.activated &&
+//@         ((count(Send, completeAction) == old(count(Send, completeAction)) + 1 && count(Trace, ErrorTrace) == old(count(Trace, ErrorTrace)) &&
+//@           isSend(ev(evlen - 1)) && evch(ev(evlen - 1)) == evval(ev(old(evlen))).(nextActionMessage).response && is(evval(ev(evlen - 1)), completeAction)) ||
+//@          (!old(evt.activated) && count(Send, completeAction) == old(count(Send, completeAction)) && count(Trace, ErrorTrace) == old(count(Trace, ErrorTrace)) + 1))
+//@     iter ensures [the-first-token-announces-the-end-event-once-later-ones-do-not @C02]
+//@       isRecv(ev(old(evlen))) && evch(ev(old(evlen))) == evt.mch && is(evval(ev(old(evlen))), nextActionMessage) ==>
+//@         count(Call, code("event|IConsumer.ConsumeEvent")) == old(count(Call, code("event|IConsumer.ConsumeEvent"))) + (old(evt.activated) ? 0 : 1)
+//@     iter ensures [nothing-happens-without-a-request @C01]
+//@       !(isRecv(ev(old(evlen))) && evch(ev(old(evlen))) == evt.mch && is(evval(ev(old(evlen))), nextActionMessage)) ==>
+//@         count(Send, completeAction) == old(count(Send, completeAction)) && count(Call, code("event|IConsumer.ConsumeEvent")) == old(count(Call, code("event|IConsumer.ConsumeEvent"))) &&
+//@         evt.activated == old(evt.activated)
 // The throw event's step is the start event's, with the throw satisfier.
 //@ func (*throwEvent).flow
 //@   prop C01 C11
